@@ -34,7 +34,7 @@ def plan(tier):
     if tier == "quick":
         return [{"part": "hist", "n": 45, "i": i} for i in range(14)] + [{"part": "long", "datagrams": 70000, "seed": 1},
                                                                          {"part": "fast", "steps": 105000, "dt": 9e-6, "seed": 1}]
-    return [{"part": "hist", "n": 500, "i": i} for i in range(8)] + \
+    return [{"part": "hist", "n": 1500, "i": i} for i in range(8)] + \
            [{"part": "long", "datagrams": 215000, "seed": i} for i in range(8)] + \
            [{"part": "fast", "steps": 150000, "dt": dt, "seed": i} for i, dt in enumerate([1e-5, 1e-6, 1e-4, 3e-6])]
 
